@@ -24,6 +24,8 @@ var c22Origin string
 
 func init() {
 	register(&Property{ID: "C22", Run: runC22, Mutants: []Mutant{
+		{Name: "joined edits do not advance the new-text line counter", File: "internal/lsp/diff/unified.go", Old: "\t\t\ttoLine += start - last // the joiners are lines of the new text too\n", New: "", Expect: "hunk-line-counters"},
+		{Name: "an empty range is printed as a bare line number", File: "internal/lsp/diff/unified.go", Old: "\t\t} else if toCount == 0 {\n\t\t\tfmt.Fprintf(b, \" +%d,0\", hunk.toLine-1)\n", New: "\t\t} else if hunk.toLine == 1 && toCount == 0 {\n\t\t\tfmt.Fprintf(b, \" +0,0\")\n", Expect: "empty-range-format"},
 		{Name: "Apply copies the gap up to the edit's end instead of its start", File: "internal/lsp/diff/diff.go", Old: "\t\t\tout = append(out, src[lastEnd:edit.Start]...)", New: "\t\t\tout = append(out, src[lastEnd:edit.End]...)", Expect: "origin-agreement :: diff.Apply"},
 		{Name: "validate accepts overlapping edits", File: "internal/lsp/diff/diff.go", Old: "\t\tif !(0 <= edit.Start && edit.Start <= edit.End && edit.End <= len(src)) {", New: "\t\tif !(0 <= edit.Start && edit.End <= len(src)) {", Expect: "origin-agreement :: diff.validate"},
 		{Name: "edit start looked up in the target text's offset table", File: "internal/lsp/diff/ndiff.go", Old: "Edit{boffs[d.Start], boffs[d.End],", New: "Edit{aoffs[d.Start], boffs[d.End],", Expect: "rune-offsets-from-source :: edits diffRunes"},
@@ -57,7 +59,7 @@ func runC22(c *Ctx) {
 	c.Explain = "Decides agreement of internal/lsp/diff and internal/lsp/diff/lcs with the package they were copied from, golang.org/x/tools/internal/diff at the version the checker is built against (v0.29.0, read from the module cache): every function whose canonical syntax tree (positions, comments, parentheses normalised) equalled the origin's when the rule was armed (frozen list c22_origin.txt) is still equal; " +
 		"diff.Bytes equals the origin's up to the name of the ASCII test; the fork's two ASCII tests return false exactly for inputs containing a byte >= 0x80 (guard evaluated over all 256 byte values). " +
 		"The non-ASCII path (diffRunes and its decoder) is wa-lang/wa's own code since the invalid-UTF-8 repair and is decided structurally (rule rune-offsets-from-source): the decoder records the byte offset of every rune (offset = loop position, advance = decoded size, table closed with len(text)) and gives each invalid byte its own value above utf8.MaxRune; each Edit takes Start/End from the first text's table at d.Start/d.End and cuts New out of the second text with its table at d.ReplStart/d.ReplEnd; callers pass (before, after) in order. " +
-		"That Apply(before, Strings(before, after)) == after for every pair of texts is a property of the origin's algorithm, which this check does not re-establish: it decides that the copy is still that algorithm. NOT decided: the algorithm itself."
+		"That Apply(before, Strings(before, after)) == after for every pair of texts is a property of the origin's algorithm, which this check does not re-establish: it decides that the copy is still that algorithm. toUnified and unified.String are the repository's own code since two defects of the origin's rendering were repaired; they are decided by hunk-line-counters and empty-range-format. NOT decided: the algorithm itself."
 	c.Trusted = []string{"go/packages, go/parser", "golang.org/x/tools v0.29.0 internal/diff sources in the module cache as the origin"}
 	p := c.Load(LoadOpt{Light: true}, "./internal/lsp/diff", "./internal/lsp/diff/lcs")
 	const rule = "origin-agreement"
@@ -137,6 +139,7 @@ func runC22(c *Ctx) {
 	// the fork's ASCII tests
 	if pk := p.Pkg("internal/lsp/diff"); pk != nil {
 		c22RunePath(c, p, pk)
+		c22Unified(c, p, pk)
 		info := pk.TypesInfo
 		for _, name := range []string{"isASCII", "isASCIIByte"} {
 			fd := p.MustFunc("ascii-test", pk, name)
